@@ -4,6 +4,7 @@ mod concsim;
 mod dicfmt;
 mod sink;
 mod dictfac;
+mod editsim;
 mod harness;
 mod mirigen;
 mod proj;
@@ -29,6 +30,8 @@ fn main() {
         "buildsim" => run_batch(&buildsim::BuildSim, &opts).exit,
         "concsim" => run_batch(&concsim::ConcSim, &opts).exit,
         "roundtrip" => run_batch(&roundtrip::RoundTripSim, &opts).exit,
+        "editsim" => run_batch(&editsim::EditSim, &opts).exit,
+        "offsetsim" => run_batch(&editsim::OffsetSim, &opts).exit,
         "dbgtok" => {
             // vsim dbgtok --replay file --text T --mode A
             let doc: serde_json::Value = serde_json::from_slice(&std::fs::read(opts.replay.as_ref().unwrap()).unwrap()).unwrap();
